@@ -275,6 +275,18 @@ func init() {
 				limitShape{fmt.Sprintf("begin-recursion-inside-eexec-at-depth-%d-binary-%t", n, bin), eexecShape(n, "/f { 1 dict begin f end } def f", bin), []string{"dictstackoverflow", "execstackoverflow"}, false, ""})
 		}
 	}
+	// operators that push onto the dictionary stack themselves and fail
+	// afterwards, under an error handler that lets the program go on: whatever
+	// they pushed must not stay (or the growth must be cut off)
+	for _, bin := range []bool{false, true} {
+		limitShapes = append(limitShapes,
+			limitShape{fmt.Sprintf("failing-nested-eexec-repeated-under-handler-binary-%t", bin), eexecShape(3, "errordict /invalidaccess { } put 3000 { currentfile eexec } repeat", bin), []string{"", "dictstackoverflow"}, false, ""},
+			limitShape{fmt.Sprintf("failing-nested-eexec-loop-under-handler-binary-%t", bin), eexecShape(3, "errordict /invalidaccess { } put { currentfile eexec } loop", bin), []string{"dictstackoverflow", "budget"}, false, ""})
+	}
+	limitShapes = append(limitShapes,
+		limitShape{"failing-begin-repeated-under-handler", "errordict /typecheck { pop } put 600 { 5 begin } repeat", []string{"", "stackoverflow"}, false, ""},
+		limitShape{"failing-eexec-operand-repeated-under-handler", "errordict /typecheck { } put 600 { 5 eexec } repeat", []string{"", "stackoverflow"}, false, ""},
+	)
 }
 
 var limitShapes = []limitShape{
